@@ -156,6 +156,24 @@ func runC12(c *Ctx) {
 					}
 				}
 			}
+			// serving requests only READS the published state: a few requests for every served method (the
+			// backend pick among several handlers included), then the state must read as it was published
+			{
+				fpAfter := after.Fingerprint()
+				for round := 0; round < 3; round++ {
+					for _, m := range u.methods {
+						if len(r.live[m.id]) == 0 || m.stream {
+							continue
+						}
+						req := httptest.NewRequest("POST", u.full(m), strings.NewReader("{}"))
+						req.Header.Set("Content-Type", "application/json")
+						serveOn(mux, req)
+					}
+				}
+				if fp := after.Fingerprint(); fp != fpAfter {
+					c.SpecFail("immutability", r.hist+" ; then requests for every served method", firstDiff(fpAfter, fp), "the state as it was published", "C12/request-modified-published-state", "serving a request modified the published state (concurrent requests and later registrations work on it)")
+				}
+			}
 			for _, k := range keep {
 				if fp := k.snap.Fingerprint(); fp != k.fp {
 					c.SpecFail("immutability", fmt.Sprintf("%s ; state published by call %d, re-read after call %d", r.hist, k.at, len(r.ops)), firstDiff(k.fp, fp), "the state as it was published", "C12/published-state-mutated", "a later call modified a state that had already been published (a reader holding it sees it change)")
